@@ -10,8 +10,8 @@ from . import run
 from .run import Infra
 
 ROOT = run.ROOT
-REPLAYS = os.path.join(ROOT, "replays")
-EVIDENCE = os.path.join(ROOT, "evidence")
+REPLAYS = os.path.join(ROOT, "replays") if "VERIF_EVIDENCE_DIR" not in os.environ else os.path.join(os.environ["VERIF_EVIDENCE_DIR"], "replays")
+EVIDENCE = os.environ.get("VERIF_EVIDENCE_DIR", os.path.join(ROOT, "evidence"))
 KNOWN = os.path.join(ROOT, "known_findings.txt")
 
 
@@ -352,3 +352,31 @@ def baseline_off():
         return 0 if r.returncode == 0 and "SKIPPED" not in r.stdout else 1
     finally:
         shutil.rmtree(d, ignore_errors=True)
+
+
+def try_patch(patch, pids, tier="quick", keep=False):
+    """Apply a patch to a scratch copy of the tree (outside /repo and /verif) and run the given checks
+    against it.  Returns {pid: exit code}.  The copy is removed afterwards."""
+    import shutil
+    import subprocess
+    import tempfile
+    d = tempfile.mkdtemp(prefix="polyseed-mut-")
+    try:
+        for sub in ("src", "include", "tests"):
+            shutil.copytree(os.path.join(run.REPO, sub), os.path.join(d, sub))
+        shutil.copy(os.path.join(run.REPO, "CMakeLists.txt"), d)
+        r = subprocess.run(["patch", "-p1", "-s", "-d", d, "-i", os.path.abspath(patch)], stdout=subprocess.PIPE, stderr=subprocess.STDOUT, text=True)
+        if r.returncode != 0:
+            print("patch does not apply: " + r.stdout[-500:])
+            return None
+        out = {}
+        env = dict(os.environ, VERIF_REPO=d, VERIF_EVIDENCE_DIR=os.path.join(d, "evidence"))
+        for pid in pids:
+            r = subprocess.run([os.path.join(ROOT, "verif"), "check", pid, "--tier", tier], env=env,
+                               stdout=subprocess.PIPE, stderr=subprocess.STDOUT, text=True)
+            first = [l for l in r.stdout.splitlines() if l.startswith(("VIOLATION", "  ", "OK ", "INFRA", "KNOWN"))][:3]
+            out[pid] = (r.returncode, first)
+        return out
+    finally:
+        if not keep:
+            shutil.rmtree(d, ignore_errors=True)
